@@ -15,7 +15,10 @@
 //	{"op":"elect","s":2,"r":1,"q":[2,3]}   campaign + drain among q + lose the rest of region r's messages
 //	{"op":"sync","r":1,"q":[1,2]}          drain among q, beat, drain among q
 //	{"op":"vote","s":2,"r":1,"q":[2,3]}    campaign + deliver only election messages among q + lose the other election messages of r
-//	{"op":"push","r":1,"s":1,"f":2,"ack":b} beat s; deliver region r's messages s->f; ack: full exchange between s and f, else lose f->s
+//	{"op":"push","r":1,"s":1,"f":2,"ack":b,"hold":h} beat s; deliver region r's messages s->f; ack: full exchange between s and f,
+//	                                       else the replies f->s are lost (hold=false) or stay queued (hold=true: delayed)
+//	{"op":"race","s":2,"r":1}              deliver the messages queued for s with two concurrent steppers while the first applied command is slow
+//	{"op":"wait","n":3300}                 let n milliseconds of wall-clock time pass (ReadIndex timeout)
 //	{"op":"partition","a":[1],"b":[2,3]} {"op":"heal"}
 //	{"op":"propose","s":1,"r":1,"k":"b"} {"op":"read","s":1,"r":1,"k":"b"}
 //	{"op":"restart","s":1}
@@ -36,19 +39,20 @@ import (
 )
 
 type op struct {
-	Op  string   `json:"op"`
-	S   uint64   `json:"s"`
-	R   uint64   `json:"r"`
-	N   int      `json:"n"`
-	I   int      `json:"i"`
-	K   string   `json:"k"`
-	Q   []uint64 `json:"q"`
-	A   []uint64 `json:"a"`
-	B   []uint64 `json:"b"`
-	Max int      `json:"max"`
-	F   uint64   `json:"f"`
-	Ack bool     `json:"ack"`
-	In  bool     `json:"in"`
+	Op   string   `json:"op"`
+	S    uint64   `json:"s"`
+	R    uint64   `json:"r"`
+	N    int      `json:"n"`
+	I    int      `json:"i"`
+	K    string   `json:"k"`
+	Q    []uint64 `json:"q"`
+	A    []uint64 `json:"a"`
+	B    []uint64 `json:"b"`
+	Max  int      `json:"max"`
+	F    uint64   `json:"f"`
+	Ack  bool     `json:"ack"`
+	Hold bool     `json:"hold"`
+	In   bool     `json:"in"`
 }
 
 type sched struct {
@@ -89,7 +93,7 @@ func run(sc *sched, dir string, w *vt.Writer) (err error) {
 	if err != nil {
 		return err
 	}
-	emit(vt.Ev{"e": "Init", "stores": sc.Stores, "regions": sc.Regions})
+	emit(vt.Ev{"e": "Init", "stores": sc.Stores, "regions": sc.Regions, "aligned": c.Aligned})
 	max := func(o op) int {
 		if o.Max > 0 {
 			return o.Max
@@ -150,8 +154,14 @@ func run(sc *sched, dir string, w *vt.Writer) (err error) {
 				info["n"] = c.Drain(o.R, []uint64{o.S, o.F}, max(o))
 			} else {
 				info["n"] = c.DrainSel(func(m *netsim.Msg) bool { return m.Region == o.R && m.From == o.S && m.To == o.F }, max(o))
-				info["lost"] = c.DropSel(func(m *netsim.Msg) bool { return m.Region == o.R && m.From == o.F && m.To == o.S })
+				if !o.Hold {
+					info["lost"] = c.DropSel(func(m *netsim.Msg) bool { return m.Region == o.R && m.From == o.F && m.To == o.S })
+				}
 			}
+		case "race":
+			info["race"] = c.Race(o.S, o.R, 300*time.Millisecond)
+		case "wait":
+			c.Wait(time.Duration(o.N) * time.Millisecond)
 		case "sync":
 			n := c.Drain(o.R, o.Q, max(o))
 			beat(c, o.R, o.Q)
@@ -216,6 +226,7 @@ func main() {
 			vt.Fatal("bad schedule: %v", err)
 		}
 		d := filepath.Join(*dir, fmt.Sprintf("c%d", sc.ID))
+		_ = os.RemoveAll(d) // never start from the image of an earlier, aborted run
 		if err := run(&sc, d, w); err != nil {
 			fmt.Fprintln(os.Stderr, err)
 			failed++
